@@ -120,7 +120,11 @@ func recordConcWrite(args []string) error {
 				}(g)
 			}
 			close(start)
-			wg.Wait()
+			if !waitOr(&wg, 120*time.Second) {
+				// concurrent AddRow calls that never return: the trace ends with an event no action matches
+				w.Emit(map[string]any{"ev": "Hang", "what": "concurrent AddRow calls did not return within 120 s", "goroutines": ng, "kind": kind})
+				return w.Close()
+			}
 			// uneven tail: a very wide row enters AddRow first, a narrow one a moment later and overtakes it wherever
 			// the writer works outside its lock; the last rows decide what the row counter ends up as
 			tail := make([]item, 0, 6)
